@@ -462,7 +462,7 @@ impl Builder {
                     .entry(self.http_status_code(s))
                     .or_insert(ReferenceOr::Item(Response::default()))
             } else {
-                default.insert(ReferenceOr::Item(Response::default()))
+                default.get_or_insert_with(|| ReferenceOr::Item(Response::default()))
             };
             if let ReferenceOr::Item(res) = response {
                 if let Some(schema) = content.schema.as_ref() {
